@@ -19,6 +19,10 @@ fn repr_cmp<const ABS: bool>(lhs: &Repr, rhs: &Repr) -> Ordering
 
     // step2: if both numbers are integers or one of them is zero
     if lhs.denominator.is_one() && rhs.denominator.is_one() {
+        /*@ proof {
+            assert(an * cd == an && cn * ad == cn && rabs(an) * cd == rabs(an) && rabs(cn) * ad == rabs(cn))
+                by (nonlinear_arith) requires cd == 1, ad == 1;
+        } @*/
         return if ABS {
             lhs.numerator.abs_cmp(&rhs.numerator)
         } else {
